@@ -115,3 +115,9 @@ meta("C15",
      tested_only="'auto' plumbing per entry point (MRTS='auto' == passing default_thresh explicitly; bivariate from the pair, multivariate from the list): oracle on the implementation, both backends; np.sqrt; MRTS omitted == 0",
      rule="exhaustive <=3-spike pairs on the 9-point grid (sampled 2500) + random pairs, ordered MRTS pairs from {0,1/8,1/4,3/8,1/2,1,2}, a threshold below every ISI, 'auto'; random lists for the multivariate forms; distinct by canonical encoding",
      assumptions=[A_FLOAT, A_CY, A_RQ, "sqrt is not modelled: the theorems speak about the squared threshold"])
+
+meta("C18",
+     proved="for every list (>= 2, any admissible index selection) of valid trains incl. empty / one-spike / edge-spike / identical trains, with Reconcile on or off and both backends: all four profile functions (bivariate and multivariate) return Ok with a well-formed profile from t_start to t_end (strictly increasing axis, consistent lengths; discrete: edge entries + strictly increasing events); every divisor of an ISI / SPIKE profile value is positive; all scalar, matrix, values and filter functions return Ok (matrices square of the right size) on the whole recording and every admissible sub-interval; an out-of-range index is the only modelled error",
+     tested_only="that the implementation raises no exception the model does not have (numpy-internal errors) and that float results are finite: 121 degenerate pairs + random lists with degenerate members through every public function and call form, both backends",
+     rule="all ordered pairs of 11 degenerate trains ([], [0], [1], [1/2], [0,1], ...) plus 300 (thorough 4000) random lists of 3-5 trains drawn from the degenerate set and random trains; random MRTS / max_tau / RI / sub-interval; every public function in every call form; distinct by canonical encoding",
+     assumptions=[A_FLOAT, A_CY, A_RQ])
